@@ -626,6 +626,8 @@ class Exec(CallsMixin):
                     st.assume(hv.e != sym_ABSENT())  # `absent` encodes a missing dict entry; it is never the value of a variable
                     st.vars[n] = hv
         ind = self.opts.get("independent_of")
+        if ind is not None and hasattr(self, "ind_setup"):
+            self.ind_setup(ind, node)  # makes sure the source terms are known before the first call site is reached
         if ind is not None and getattr(self, "ind_sources", None):
             # non-interference: what a loop leaves in the variables it assigns may depend on anything the loop read — conservatively on the sources
             es = [e_ for _n, e_ in self.ind_sources]
@@ -647,6 +649,13 @@ class Exec(CallsMixin):
                     # attribute stores: havoc exactly the assigned attributes (collected syntactically)
                     continue
                 self.havoc_ref(slot, st)
+                if ind is not None and getattr(self, "ind_sources", None):
+                    # a container mutated inside the loop: its content after the loop may depend on anything the loop read
+                    c2 = st.cell(slot)
+                    if isinstance(getattr(c2, "val", None), Val):
+                        es = [e_ for _n, e_ in self.ind_sources]
+                        cv = c2.val
+                        st.wcell(slot).val = Val(cv.tag, z3.Function(f"dep.loop.{cv.e.sort().name()}", cv.e.sort(), *[e_.sort() for e_ in es], cv.e.sort())(cv.e, *es))
         for path in modifies:
             self.havoc_path(path, st.vars, st, node)
 
